@@ -141,3 +141,34 @@ if "C10f" in which:
         ("c10f_example", "exl_theorem_instance", "Non-vacuity, kernel-evaluated and instantiated: ABC 5 @ 100, BCD 30 @ 10, cash 165, request 650: sells ABC 5 and BCD 15, worth 650.", True),
         ("c10f_why_whole_units", "exf_fractional_shortfall", "Why whole units: with the binary64 bid nearest 147.2 and 47 840 to raise, 47840 / bid evaluates to exactly 325, the call reports success, and 325 x bid is less than 47 840 in binary64 — for fractional data the clause holds over the reals only (Props/C10.v).", True),
     ])
+
+if "C09f" in which:
+    gen("C09float", "C09's 'Failed if and only if' AT THE IEEE binary64 INSTANCE for whole-unit data without costs. "
+        "Statements only. Notation as in Props/C10float.v (`lrel`, `zhsum` = integer worth of the positions at the "
+        "whole-unit bids, `zliq`, `znz`, `zvalue`, `sell_reads`). The decision the code takes in binary64 — cash < 0 and "
+        "-cash + 1000 > liquidation value — is the integer decision, and what it queues when it stays Ready is worth at "
+        "least the shortfall + 1000 in exact integers. Depends on the specification axioms the standard library declares "
+        "for primitive floats / 63-bit integers and the classical reals (Flocq).", IMPF10.replace("Proofs.FloatLiq.", "Proofs.FloatLiq Proofs.FloatFailed."), [
+        ("c09f_liquidation_value", "liquidation_value_float", "Without costs the liquidation value computed in binary64, for any iteration order, is the float of cash + integer worth of the positions.", True),
+        ("c09f_failed_iff", "failed_iff_float", "The cash rebalancing of a Ready broker with negative integer cash: Failed IF AND ONLY IF cash + positions < -cash + 1000 (integers); Failed changes nothing else and queues nothing; Ready queues a non-empty list of price-less market sells, each accepted by the gate, each between one share and the position, distinct symbols, worth at least -cash + 1000 in exact integers.", True),
+        ("c09f_check", "check_failed_iff_float", "The same through check(), on the state after booking what the tick returned: Failed iff the booked cash is negative and the shortfall + 1000 exceeds the liquidation value; non-negative booked cash leaves the broker as booked and sends nothing.", True),
+        ("c09f_example_failed", "exf9_theorem_fail", "Non-vacuity, instantiated: ABC 5 @ 100, cash -300: 1300 > 200, Failed, nothing queued.", True),
+        ("c09f_example_ready", "exf9_theorem_ready", "… and ABC 20 @ 100, cash -300: 1300 <= 1700, Ready, 13 ABC sold.", True),
+    ])
+
+IMPF13 = IMPF10.replace("Proofs.FloatLiq.", "Proofs.CostProofs Proofs.FloatLiq Proofs.FloatCost.")
+if "C13f" in which:
+    gen("C13float", "C13 AT THE IEEE binary64 INSTANCE for whole-unit costs (per-share and flat costs with integer-valued "
+        "parameters; a percentage cost multiplies the budget by 1 - p, which is not integral, and stays over the reals). "
+        "Statements only. `cost_reads c zc` ties a float cost to its integer reading; `zsum_ps` / `zsum_flat` are the sums "
+        "of the per-share / flat parameters. Depends on the specification axioms the standard library declares for "
+        "primitive floats / 63-bit integers and the classical reals (Flocq).", IMPF13, [
+        ("c13f_integer_division", "div_floor_int", "Integer division through floats: floor(a / b) computed in binary64 is the float of the integer quotient for |a| < 2^53, b > 0.", True),
+        ("c13f_net_budget_and_price", "trade_impact_total_int", "The cost model's (net budget, net price), list threaded in any order: (budget - sum of flat fees, price + sum of per-share fees) for a buy, price - sum for a sell — exact integers.", True),
+        ("c13f_fees_additive", "trade_costs_int", "Fees of a trade are additive across the list: quantity x sum of per-share fees + sum of flat fees, exactly.", True),
+        ("c13f_no_overspend", "no_overspend_float", "HEADLINE: n = floor(net budget / net price) is the float of the integer quotient, and n x price + every fee computed on that trade — all evaluated in binary64 — is the float of an integer that does NOT exceed the gross budget (and the binary64 comparison says so); one more share would overspend.", True),
+        ("c13f_directions", "directions_float", "Net price >= gross price for buys, <= for sells; net budget <= gross budget — as binary64 comparisons.", True),
+        ("c13f_negative_budget", "sized_shares_negative", "Fees larger than the budget: the sized share count is negative (at most -1) and the broker's clamp turns it into 0.0 — nothing is ordered.", True),
+        ("c13f_example", "exk_theorem_instance", "Non-vacuity, instantiated: costs [per-share 1; flat 25; flat 5], budget 10 000, price 99: 99 shares, outlay 9 930.", True),
+        ("c13f_why_whole_units", "exp_percentage_tight", "Why percentage costs stay over the reals: with a percentage of 2^-60, budget 1000, price 1, binary64 computes 1 - 2^-60 = 1, buys 1000 shares, and the fee is a positive number that binary64 then adds back to exactly 1000: the inequality of C13 holds of the floats and fails of the reals by 8.7e-16.", True),
+    ])
